@@ -112,9 +112,9 @@ func (g *c25Gen) str() string {
 		return "é世界  \"quoted\" \\ </script> \x00 \x1f 𝄞"
 	case 2:
 		return strings.Repeat("xy", rng.Intn(400))
-	case 3:
+	case 3, 4:
 		if g.invalidS {
-			return "bad\xff\xfeutf8\xc3"
+			return c25NonUTF8(rng)
 		}
 	}
 	n := rng.Intn(20)
@@ -132,6 +132,34 @@ func (g *c25Gen) str() string {
 		}
 	}
 	return sb.String()
+}
+
+// c25NonUTF8 returns a Go string holding bytes that are not valid UTF-8: raw
+// digests kept in a string, Latin-1 text, truncated or overlong sequences,
+// UTF-16 surrogates, and pairs that differ only in an invalid byte.
+func c25NonUTF8(rng *rand.Rand) string {
+	switch rng.Intn(9) {
+	case 0:
+		b := make([]byte, 8+rng.Intn(25)) // raw digest
+		rng.Read(b)
+		b[rng.Intn(len(b))] = 0xff
+		return string(b)
+	case 1:
+		return "caf\xe9" // Latin-1
+	case 2:
+		return "truncated \xe4\xb8" // multi-byte sequence cut short
+	case 3:
+		return "\x80 lone continuation"
+	case 4:
+		return "overlong \xc0\xaf"
+	case 5:
+		return "surrogate \xed\xa0\x80"
+	case 6:
+		return "k\xff" // with case 7: two keys that differ only in an invalid byte
+	case 7:
+		return "k\xfe"
+	}
+	return "bad\xff\xfeutf8\xc3"
 }
 
 func (g *c25Gen) f64() float64 {
@@ -510,11 +538,7 @@ func c25Scalar(g *c25Gen, fd protoreflect.FieldDescriptor) protoreflect.Value {
 	case protoreflect.DoubleKind:
 		return protoreflect.ValueOfFloat64(g.f64())
 	case protoreflect.StringKind:
-		s := g.str()
-		if !utf8.ValidString(s) {
-			s = "v"
-		}
-		return protoreflect.ValueOfString(s)
+		return protoreflect.ValueOfString(g.str())
 	case protoreflect.BytesKind:
 		b := make([]byte, rng.Intn(48))
 		rng.Read(b)
@@ -652,6 +676,8 @@ func c25RoundTrip(r *verifrt.Run, c c25Codec, v any, class string) []byte {
 			kind := "value"
 			if strings.Contains(why, ": time ") {
 				kind = "time-precision"
+			} else if !c25ValidUTF8(reflect.ValueOf(v)) && (strings.Contains(why, ": string ") || strings.Contains(why, "key missing") || strings.Contains(why, ": map len ")) {
+				kind = "non-utf8-string"
 			}
 			r.Violation("serializer-roundtrip:message-differs:"+c.name+":"+kind, det(map[string]any{"where": why, "got": c25Text(got), "frame": c25Hex(snapshot)}))
 		}
@@ -757,8 +783,8 @@ func c25Mutate(rng *rand.Rand, frame []byte) ([]byte, string) {
 func TestVerif_C25(t *testing.T) {
 	r := verifrt.Start(t, "C25")
 	defer r.Finish()
-	r.Rule("[remote] round-trip case = one generated value given to one serializer: every registered protobuf message type (internal schema, test schema, well-known types) filled by a seeded protoreflect filler for ProtoSerializer; registered Go structs (all integer widths, floats incl. edge values, unicode strings, []byte, nested slices/maps/pointers/arrays, time.Time in several zones and precisions) and Go primitives for CBORSerializer and JSONSerializer; plus values no serializer supports (unregistered type, nil, non-proto for proto, channel field, NaN for JSON). Oracle: if Serialize returns no error, Deserialize of its output must return no error, the same dynamic type and an equal value (proto.Equal / structural equality with instants for time, nil==empty containers); non-trivial = Serialize accepted the value; distinct by serializer + frame bytes. hostile case = mutation of a valid frame given to every Deserialize under recover")
-	r.Assume("equality of the Go value domain: time.Time by instant, nil and empty slices/maps alike, NaN equal to NaN; JSON strings restricted to valid UTF-8 (JSON cannot carry other strings), CBOR strings unrestricted")
+	r.Rule("[remote] round-trip case = one generated value given to one serializer: every registered protobuf message type (internal schema, test schema, well-known types) filled by a seeded protoreflect filler for ProtoSerializer; registered Go structs (all integer widths, floats incl. edge values, unicode and non-UTF-8 strings, []byte, nested slices/maps/pointers/arrays, time.Time in several zones and precisions) and Go primitives for CBORSerializer and JSONSerializer; plus values no serializer supports (unregistered type, nil, non-proto for proto, channel field, NaN for JSON). Oracle: if Serialize returns no error, Deserialize of its output must return no error, the same dynamic type and an equal value (proto.Equal / structural equality with instants for time, nil==empty containers); non-trivial = Serialize accepted the value; distinct by serializer + frame bytes. hostile case = mutation of a valid frame given to every Deserialize under recover")
+	r.Assume("equality of the Go value domain: time.Time by instant, nil and empty slices/maps alike, NaN equal to NaN; Go strings may hold any bytes, also bytes that are not valid UTF-8 (struct fields, map keys and values, slices of strings, the primitive string message): every serializer is judged by the same rule (accepted => equal after Deserialize; an error from Serialize is fine)")
 
 	rng := r.Rand(2501)
 	cbor, json, pb := NewCBORSerializer(), NewJSONSerializer(), NewProtoSerializer()
@@ -786,7 +812,7 @@ func TestVerif_C25(t *testing.T) {
 	for i := 0; i < n; i++ {
 		switch i % 5 {
 		case 0, 1: // protobuf
-			g := &c25Gen{rng: rng, nonFinite: true}
+			g := &c25Gen{rng: rng, nonFinite: true, invalidS: rng.Intn(12) == 0}
 			mt := ptypes[perm[(i/5*2+i%5+r.Batch*31)%len(ptypes)]]
 			m := mt.New()
 			c25Fill(g, m, 3)
@@ -803,7 +829,7 @@ func TestVerif_C25(t *testing.T) {
 			keep(1, f)
 			r.Case("cbor/"+string(f), f != nil)
 		case 3: // JSON struct
-			g := &c25Gen{rng: rng, nonFinite: rng.Intn(8) == 0, timeNanos: true}
+			g := &c25Gen{rng: rng, nonFinite: rng.Intn(8) == 0, timeNanos: true, invalidS: rng.Intn(3) == 0}
 			var v any = g.msg()
 			if rng.Intn(5) == 0 {
 				v = &c25Small{Name: g.str(), Count: int(g.i64()), When: g.time()}
@@ -812,12 +838,12 @@ func TestVerif_C25(t *testing.T) {
 			keep(2, f)
 			r.Case("json/"+string(f), f != nil)
 		default: // primitives through both registry serializers, and unsupported values
-			g := &c25Gen{rng: rng, nonFinite: rng.Intn(4) == 0}
+			g := &c25Gen{rng: rng, nonFinite: rng.Intn(4) == 0, invalidS: rng.Intn(2) == 0}
 			p := g.primitive()
-			ci := 1 + rng.Intn(2)
-			if s, ok := p.(string); ok && ci == 2 && !utf8.ValidString(s) {
-				ci = 1
+			if g.invalidS && rng.Intn(4) == 0 {
+				p = c25NonUTF8(rng) // the pre-registered primitive string message
 			}
+			ci := 1 + rng.Intn(2)
 			f := c25RoundTrip(r, codecs[ci], p, "primitive")
 			keep(ci, f)
 			r.Case(codecs[ci].name+"/"+string(f), f != nil)
